@@ -85,6 +85,47 @@ def classify_exc(ex, deps_exc):
     return "Other:" + type(ex).__name__
 
 
+def cli_eups():
+    """The Eups instance `eups expandtable` works with: EupsCmd.createEups constructs it and selects the VRO at once
+    (with the default VRO that switches the `exact` setup type on, which decides which branch of an already expanded
+    dependency table getDependencies reads)."""
+    E = common.new_eups()
+    E.selectVRO(None, None, None, None)
+    return E
+
+
+def prequery(text, names, pins):
+    """(d) the answers of the environment, asked of a fresh real Eups (in a process of its own, so that the instance the
+    expander is going to use is as fresh as the one of `eups expandtable`)."""
+    import eups
+    from eups.exceptions import ProductNotFound
+    _quiet()
+    E = cli_eups()
+    ans = {"sv": [], "spv": [], "deps": []}
+    for n in candidate_names(text, list(names) + list(pins)):
+        try:
+            v = eups.getSetupVersion(n, eupsenv=E)
+        except ProductNotFound:
+            v = None
+        except Exception as ex:  # noqa
+            return {"skip": "getSetupVersion raised %s" % type(ex).__name__}
+        if v is not None:
+            ans["sv"].append([n, v])
+        try:
+            p = E.findSetupProduct(n)
+        except Exception as ex:  # noqa
+            return {"skip": "findSetupProduct raised %s" % type(ex).__name__}
+        if p is not None:
+            ans["spv"].append([n, p.version])
+        for ver in sorted({x for x in (pins.get(n), v) if x is not None}):
+            try:
+                d = eups.getDependencies(n, ver, E, setup=True, shouldRaise=True)
+                ans["deps"].append([n, ver, [[a, b, bool(c)] for a, b, c, _ in d]])
+            except Exception:  # noqa
+                ans["deps"].append([n, ver, None])
+    return ans
+
+
 def child_expand(env, path, opts, names):
     """Ask the real Eups what the expander is going to ask it, then run the real expander on the file."""
     import eups
@@ -95,32 +136,15 @@ def child_expand(env, path, opts, names):
     with open(path) as f:
         text = f.read()
     pins = dict(opts["pins"])
+    r = common.in_child(prequery, text, names, pins)
+    if r[0] != "ok":
+        return {"child": list(r[:3])}
+    ans = r[1]
+    if "skip" in ans:
+        return ans
     with _quiet(), contextlib.redirect_stdout(io.StringIO()):
-        E = common.new_eups()
-        # (d) the answers of the environment
-        ans = {"sv": [], "spv": [], "deps": []}
+        E = cli_eups()
         unstable = []
-        for n in candidate_names(text, list(names) + list(pins)):
-            try:
-                v = eups.getSetupVersion(n, eupsenv=E)
-            except ProductNotFound:
-                v = None
-            except Exception as ex:  # noqa
-                return {"skip": "getSetupVersion raised %s" % type(ex).__name__}
-            if v is not None:
-                ans["sv"].append([n, v])
-            try:
-                p = E.findSetupProduct(n)
-            except Exception as ex:  # noqa
-                return {"skip": "findSetupProduct raised %s" % type(ex).__name__}
-            if p is not None:
-                ans["spv"].append([n, p.version])
-            for ver in sorted({x for x in (pins.get(n), v) if x is not None}):
-                try:
-                    d = eups.getDependencies(n, ver, E, setup=True, shouldRaise=True)
-                    ans["deps"].append([n, ver, [[a, b, bool(c)] for a, b, c, _ in d]])
-                except Exception:  # noqa
-                    ans["deps"].append([n, ver, None])
         # interposition: record what is actually consulted, to cross-check the answers above
         seen = {"deps_exc": None}
         real_deps, real_sv, real_fsp = eups.getDependencies, eups.getSetupVersion, E.findSetupProduct
@@ -190,6 +214,42 @@ def child_expand(env, path, opts, names):
     return res
 
 
+def cli_args(path, opts):
+    """The `eups expandtable` command line for these options, or None when the CLI cannot express them."""
+    pins = opts["pins"]
+    if not opts.get("recurse", True) or any((not v) or ":" in v or "=" in v or ":" in k or "=" in k for k, v in pins.items()):
+        return None
+    a = ["expandtable", "--nolocks"]
+    if pins:
+        a += ["-p", ":".join("%s=%s" % kv for kv in pins.items())]
+    if opts["force"]:
+        a.append("--force")
+    if not opts["expandVersions"]:
+        a.append("-N")
+    if not opts["addExactBlock"]:
+        a.append("--noExact")
+    top_from_file = os.path.basename(path)[:-len(".table")]
+    if opts["toplevel"] is None:
+        return None                      # the CLI always derives a name from the file
+    if opts["toplevel"] != top_from_file:
+        a += ["-P", opts["toplevel"]]
+    return a + [path]
+
+
+def child_cli(env, args):
+    """`eups expandtable ...` through the command class, standard output captured."""
+    import eups.cmd
+    os.environ.clear()
+    os.environ.update(env)
+    out = io.StringIO()
+    with _quiet(), contextlib.redirect_stdout(out):
+        try:
+            rc = eups.cmd.EupsCmd(args=list(args), toolname="eups").run()
+        except Exception as ex:  # noqa
+            return {"err": type(ex).__name__, "errmsg": str(ex)[:200]}
+    return {"out": out.getvalue(), "rc": rc}
+
+
 def child_actions(env, paths):
     """The real table parser, inexact mode: [(cmd, args, optional)] per table file."""
     from eups.table import Table
@@ -244,6 +304,14 @@ def run_case(w, case):
     env1 = b["env"]
     built = L.records(env1)
     res["built"] = built
+    for n in case.get("tamper") or []:
+        if n in built and built[n]:
+            f = os.path.join(w.stack, "ups_db", n, built[n] + ".version")
+            if os.path.exists(f):
+                os.unlink(f)
+                res["tampered"] = True
+    if res.get("tampered"):
+        L.drop_caches(w.ud)
     names = case["names"] + L.ABSENT
     tpath = L.table_path(w.stack, topn, topv)
     # expansions: the product's own table with the case's options, then the variants
@@ -261,9 +329,12 @@ def run_case(w, case):
         r = call(child_expand, env1, p, o, names)
         r["text"] = text
         r["opts"] = o
+        ca = cli_args(p, o)
+        if ca is not None and case.get("cli_check"):
+            r["cli"] = call(child_cli, env1, ca)
         res["exps"].append(r)
     main = res["exps"][0]
-    if "out" in main:
+    if "out" in main and not res.get("tampered"):
         # the real parser on the original and on the expanded table
         xp = os.path.join(w.vdir, "expanded.table")
         with open(xp, "w") as f:
@@ -502,6 +573,8 @@ def oracle_case(case, res):
             if built.get(n) != v and pins.get(n) != v:
                 yield ("never_foreign", None, "exact block pins %s %s; build-time record: %r" % (n, v, built.get(n)), i)
     main = res["exps"][0]
+    if res.get("tampered"):
+        return
     cf = case["stream"] == "cf" and complete_env(case, built)
     if "out" not in main:
         if cf and main.get("err") and not main.get("skip"):
@@ -671,8 +744,18 @@ def evaluate(ctx, cases):
             if mv != iv:
                 ctx.disagree("expanded_text" if ei == 0 else "expanded_text_variant",
                              {"case": inp, "expansion": ei}, iv, mv, note=exp.get("errmsg", ""))
+            if "cli" in exp:
+                # the command-line glue (option parsing, -p list, top-level name from the file name) against the API call
+                cli = exp["cli"]
+                ctx.hist("cli_checked")
+                same = (cli.get("out") == exp["out"] and cli.get("rc") in (0, None)) if "out" in exp else ("err" in cli or cli.get("rc") not in (0, None))
+                if not same:
+                    ctx.disagree("cli_vs_api", {"case": inp, "expansion": ei}, {k: cli.get(k) for k in ("out", "rc", "err", "errmsg")},
+                                 {"out": exp.get("out"), "err": exp.get("err")})
         main = r["exps"][0]
-        if "out" in main:
+        if r.get("tampered"):
+            ctx.hist("tampered_between_build_and_expansion")
+        elif "out" in main:
             blk = L.exact_block(main["out"].split("\n"))
             ctx.hist("exact_block=%s" % ("none" if blk is None else "empty" if not blk else "pins"))
             hy = hyps.get((ci, 0))
